@@ -6,6 +6,14 @@ with recording observers (raising or not).  Compared with the Lean model (`drv_c
 number, voice label, stream id, colour code and the events every observer received per burst, and the
 final state of both time slots.  The oracle evaluates the property itself on the real code with shadow
 bookkeeping that does not use the model.
+
+Round 4 (exact totals at wrap points): transmissions whose end falls on the 253rd … 259th, 509th … 515th,
+1021st … 1027th burst since the last restart of the numbering (voice calls, generated data transmissions behind
+filler bursts, the maximal 256-burst generated transmission, ends by count and by an interrupting voice header),
+followed by more bursts; data transmissions that stay open for 250 … 300 / 510 … 520 blocks (header with nothing /
+no count to follow, UDT, overshoot after a preamble count that was reached without a header, CSBK streams) ended
+by a voice LC header or by end_all_transmissions, every block and the header counted (also for the hand-over of
+end_all_transmissions, which the oracle now checks block by block).
 """
 import contextlib
 import errno
@@ -1031,6 +1039,14 @@ def _run_history(raises, history, watcher, flavour, info, counter, lines, outs, 
                 allowed = [opened[s] for s in (1, 2) if opened[s]]
                 if any(e[0] == "S" for e in observers[0].raw[before[0]:]) or any(k not in allowed for k in ended) or len(ended) > len(allowed):
                     fails.append(("ended-without-open-start", "end_all_transmissions delivered an end that closes no open start of its kind", allowed, ended))
+                else:
+                    # exactly the header and the blocks received since the start, here too (slot 1 is ended before slot 2;
+                    # an open data transmission that has seen no header yet is not ended)
+                    due = [s for s in (1, 2) if opened[s] == "V" or (opened[s] == "D" and shadow[s].hdr is not None)]
+                    ends = [e for e in observers[0].raw[before[0]:] if e[0] == "E"]
+                    if [e[1] for e in ends] == [opened[s] for s in due]:
+                        for s, e in zip(due, ends):
+                            fails += shadow[s].check_end("end_all_transmissions", e)
             for s in (1, 2):
                 if term.timeslots[s].transmission.type.name == "VoiceTransmission":
                     fails.append(("not-idle-after-end", f"slot {s} still in a voice transmission after end_all_transmissions", "Idle", "VoiceTransmission"))
@@ -1269,6 +1285,123 @@ def many_transmissions(rng, n):
 
 
 # ------------------------------------------------------------------------------------------------
+# round 4: exact totals at wrap points.  (1) transmissions whose END falls on the 253rd … 259th, 509th … 515th,
+# 1021st … 1027th burst since the last restart of the numbering (the ending burst itself numbered …, 255, 0, 1, …),
+# with more bursts behind the end; (2) transmissions that stay open for 250 … 300 / 510 … 520 blocks (no count-down
+# to end them) and are then ended from outside: every block received since the start is handed over.
+# ------------------------------------------------------------------------------------------------
+WRAP_TOTALS = [m * 256 + d for m in (1, 2, 4) for d in range(-3, 4)]
+WRAP_KINDS = ["voice", "filler+generated", "open-ended-by-voice-header", "generated-256", "filler+ended-by-count", "voice-after-restart", "voice-two-headers"]
+OPEN_COUNTS_QUICK = [250, 254, 255, 256, 257, 258, 275, 300, 510, 511, 512, 513, 514, 520]
+OPEN_COUNTS = list(range(250, 301)) + list(range(510, 521))
+OPEN_SHAPES = ["response-btf0", "udt", "preamble-overshoot", "csbk-stream-then-header", "unconfirmed-btf0", "sdd-0-appended", "lost-header-overshoot"]
+OPEN_ENDERS = ["voice-header", "end-all-transmissions", "voice-header"]
+
+
+def idle_filler(rng, n):
+    """n bursts that neither start nor end anything on an idle slot (data types the tracker has no branch for,
+    vocoder bursts outside a call): they are numbered, nothing else"""
+    pool = [sym_other(rng), sym_voice_emb(rng), sym_other(rng), sym_voice_nocc(rng), sym_voice_sync(rng)]
+    return [pool[i % len(pool)] for i in range(n)]
+
+
+def voice_call(rng, total, two_headers=False):
+    """a voice call of exactly `total` >= 2 bursts, header(s) and terminator included"""
+    head = [sym_voice_header(rng)] + ([sym_voice_header(rng)] if two_headers and total >= 3 else [])
+    pool = [sym_voice_sync(rng)] + [sym_voice_emb(rng) for _ in range(5)]
+    return head + [pool[i % 6] for i in range(total - len(head) - 1)] + [sym_terminator(rng)]
+
+
+def block_mix(rng, n, preambles=False):
+    """n block-producing bursts that do not end an open data transmission whose count-down is not running:
+    non-preamble CSBKs and rate-x blocks of every rate (a small pool, repeated)"""
+    pool = [sym_csbk(rng, preamble=False) for _ in range(3)] + [sym_rate(rng, rate=r) for r in ("r12", "r34", "r1", "r12")]
+    if preambles:
+        pool += [sym_csbk(rng, preamble=True, btf=b) for b in (0, 7, 255)]
+    mode = rng.randrange(3)
+    if mode == 0:
+        pool = pool[:3]  # a stream of CSBKs only
+    elif mode == 1:
+        pool = pool[3:7]  # data blocks only
+    return [pool[rng.randrange(len(pool))] if mode == 2 else pool[i % len(pool)] for i in range(n)]
+
+
+def open_transmission(rng, n, shape):
+    """a data transmission of exactly n >= 3 block-producing bursts (header included) that nothing ends by itself"""
+    if shape == "response-btf0":
+        return [sym_data_header(rng, fmt="response", btf=0)] + block_mix(rng, n - 1)
+    if shape == "udt":
+        return [sym_data_header(rng, fmt="udt")] + block_mix(rng, n - 1)
+    if shape == "unconfirmed-btf0":
+        return [sym_data_header(rng, fmt="unconfirmed", btf=0, sap=rng.choice((3, 4)))] + block_mix(rng, n - 1)
+    if shape == "sdd-0-appended":
+        return [sym_data_header(rng, fmt="sdd", btf=0)] + block_mix(rng, n - 1)
+    if shape == "preamble-overshoot":
+        # the preamble announces nothing to follow: its count is reached at once (no header yet: nothing is ended),
+        # every later block overshoots it
+        return [sym_csbk(rng, preamble=True, btf=0), sym_data_header(rng, fmt="confirmed", btf=rng.choice((1, 3, 127)), a=1)] + block_mix(rng, n - 2, preambles=True)
+    if shape == "csbk-stream-then-header":
+        m = rng.randrange(1, n - 1)
+        return [sym_csbk(rng, preamble=False) for _ in range(m)] + [sym_data_header(rng, fmt="response", btf=0)] + block_mix(rng, n - m - 1)
+    # lost-header-overshoot: the header of the first packet is lost, the count its preamble announced is reached by a
+    # block (no header: nothing is ended), everything after overshoots it — the next packet's header and blocks are
+    # collected into the same transmission
+    first = [sym_csbk(rng, preamble=True, btf=2), sym_rate(rng, rate="r12"), sym_rate(rng, rate="r12")]
+    return first + [sym_data_header(rng, fmt="unconfirmed", btf=rng.choice((0, 2, 127)), a=0)] + block_mix(rng, n - 4, preambles=True)
+
+
+AFTER_END = 6
+
+
+def after_end(rng, in_voice=False):
+    """what follows the end: at least three more bursts, another end among them, then two more"""
+    call = [sym_voice_sync(rng), sym_voice_emb(rng), sym_voice_emb(rng), sym_terminator(rng)]
+    return ([] if in_voice else [sym_voice_header(rng)]) + call + [sym_voice_emb(rng), sym_other(rng)]
+
+
+def wrap_history(rng, total, how, slot):
+    """one slot: a transmission whose 'ended' is delivered on burst number `total` since the last restart"""
+    l = L()
+    if how == "voice":
+        h = voice_call(rng, total)
+    elif how == "voice-two-headers":
+        h = voice_call(rng, total, two_headers=True)
+    elif how == "voice-after-restart":
+        # a complete transmission first: the count that matters is the one since ITS end
+        first = generated_transmission(rng, k=1) if rng.random() < 0.5 else voice_call(rng, rng.randrange(2, 9))
+        h = first + voice_call(rng, total)
+    elif how == "filler+generated":
+        g = generated_transmission(rng, k=rng.choice((0, 1, 3)), length=rng.choice((0, 9, 20, 60, 200)))
+        h = idle_filler(rng, total - len(g)) + g
+    elif how == "filler+ended-by-count":
+        # the count a preamble announced is reached by a CSBK: the end comes from end_transmissions, not from a last block
+        g = [sym_csbk(rng, preamble=True, btf=3), sym_data_header(rng, fmt=rng.choice(("response", "unconfirmed")), btf=0), sym_rate(rng), sym_csbk(rng, preamble=False)]
+        h = idle_filler(rng, total - len(g)) + g
+    elif how == "generated-256":
+        # the longest transmission the generator can announce: 128 preambles (255 … 128 to follow), header, 127 blocks
+        conf = bool(rng.randrange(2))
+        g = generated_transmission(rng, rate="r12", confirmed=conf, k=128, length=126 * (10 if conf else 12) + (6 if conf else 8), sap=4)
+        h = idle_filler(rng, total - len(g)) + g
+    else:
+        # open-ended-by-voice-header: the 'ended' comes with the voice LC header that interrupts the data transmission
+        h = open_transmission(rng, total - 1, rng.choice(OPEN_SHAPES[:6])) + [sym_voice_header(rng)]
+        return [[slot] + b for b in h + after_end(rng, in_voice=True)]
+    return [[slot] + b for b in h + after_end(rng)]
+
+
+def open_history(rng, n, shape, ender, slot):
+    """an open data transmission of n blocks, ended by a voice LC header or left to end_all_transmissions; the
+    other slot carries a short call in between (its events must not get mixed in)"""
+    h = [[slot] + b for b in open_transmission(rng, n, shape)]
+    other = [[3 - slot] + b for b in voice_call(rng, 4)]
+    pos = rng.randrange(1, len(h))
+    h = h[:pos] + other + h[pos:]
+    if ender == "voice-header":
+        h += [[slot] + b for b in [sym_voice_header(rng)] + after_end(rng, in_voice=True)]
+    return h
+
+
+# ------------------------------------------------------------------------------------------------
 # histories for the ambient sample: every way a transmission with SAP = UDP/IP header compression can end
 # ------------------------------------------------------------------------------------------------
 def udp_datagrams(rng):
@@ -1338,6 +1471,10 @@ def build_history(job):
         history = [[job["slot"]] + b for b in generated_transmission(r, rate=job["rate"], confirmed=job["confirmed"], k=2, sap=3,
                                                                    payload=bytes(r.randrange(1, 256) for _ in range(job["n"])))]
         history += [[job["slot"]] + sym_voice_header(r), [job["slot"]] + sym_terminator(r)]
+    elif kind == "wrap":
+        history = wrap_history(_random.Random(job["seed"]), job["total"], job["how"], job["slot"])
+    elif kind == "open":
+        history = open_history(_random.Random(job["seed"]), job["n"], job["shape"], job["ender"], job["slot"])
     else:
         history = job["history"]
     if job.get("inject") is not None:
@@ -1512,7 +1649,11 @@ def run(ctx):
         "repeated / foreign bursts, shuffled), voice fragments (header, superframes with lost bursts and late entry, terminator) and "
         "single random symbols, each under observers that raise / do not raise (seven families of exception classes, BaseException "
         "included), a quarter of them through a TransmissionWatcher that finishes with end_all_transmissions; histories with > 256 "
-        "bursts without an end.  Error paths: calls the tracker rejects (wrong time slot / burst type / observer, corrupted copies of "
+        "bursts without an end; exact totals at wrap points: a dense sweep of transmission lengths in bursts since the last restart of "
+        "the numbering (253..259, 509..515, 1021..1027; voice calls, generated data behind filler bursts, the maximal 256-burst generated "
+        "transmission, ends by count and by an interrupting voice header) with at least six bursts after the end, and data transmissions "
+        "that stay open for 250..300 / 510..520 blocks (nothing / no count to follow, UDT, overshoot, CSBK streams) ended by a voice LC "
+        "header or end_all_transmissions, header and every block counted.  Error paths: calls the tracker rejects (wrong time slot / burst type / observer, corrupted copies of "
         "the next burst) interleaved into histories, the first call being a rejected one; they must change nothing and the valid "
         "bursts must be answered as without them.  Ambient state: a fixed sample (every way a SAP = UDP/IP-compression transmission "
         "whose datagram does / does not decode can end, the corpus, random histories) re-run with sys.stdout / sys.stderr replaced "
@@ -1577,6 +1718,33 @@ def run(ctx):
     # ---- sequence wrap
     for raises in configs[:2]:
         jobs.append({"kind": "long", "desc": "sequence wrap", "raises": raises, "seed": rng.getrandbits(64), "n": ctx.budget(300, 700)})
+    # ---- exact totals at wrap points (round 4): the end of a transmission on the 253rd … 259th, 509th … 515th, 1021st …
+    # 1027th burst since the last restart, every kind of end at the multiples themselves; a fixed share, not boosted
+    for i, total in enumerate(WRAP_TOTALS):
+        exact = total % 256 == 0
+        if ctx.thorough():
+            hows = WRAP_KINDS
+        elif exact:
+            hows = WRAP_KINDS if total <= 512 else WRAP_KINDS[:5]
+        else:
+            # the neighbours of a multiple (ending burst numbered 255 / 1) get every basic kind of end, the others two / one in rotation
+            j = rng.randrange(3)
+            hows = WRAP_KINDS[:3] if total % 256 in (1, 255) else [WRAP_KINDS[(i + j) % 3], WRAP_KINDS[(i + j + 1) % 3]] if total < 600 else [WRAP_KINDS[(i + j) % 3]]
+        for k, how in enumerate(hows):
+            if how == "generated-256" and total < 256:
+                continue
+            jobs.append({"kind": "wrap", "desc": f"end on burst {total} since the last restart ({how})", "raises": configs[(i + k) % 4], "seed": rng.getrandbits(64),
+                         "total": total, "how": how, "slot": 1 + (i + k) % 2, "flavour": (i + k) % len(FLAVOURS),
+                         "counts": [f"class:wrap:{how}", f"class:wrap-total:{total}"], "sample": (total, how) == (256, "voice")})
+    # ---- open transmissions of 250 … 300 / 510 … 520 blocks, ended from outside: every block is handed over
+    shift = rng.randrange(len(OPEN_SHAPES))
+    open_counts = OPEN_COUNTS if ctx.thorough() else OPEN_COUNTS_QUICK + [n for n in OPEN_COUNTS_QUICK if n < 300]
+    for i, n in enumerate(open_counts):
+        shape = OPEN_SHAPES[(i + shift) % len(OPEN_SHAPES)]
+        ender = OPEN_ENDERS[i % len(OPEN_ENDERS)]
+        jobs.append({"kind": "open", "desc": f"open data transmission of {n} blocks ({shape}) ended by {ender}", "raises": configs[i % 4], "seed": rng.getrandbits(64),
+                     "n": n, "shape": shape, "ender": ender, "slot": 1 + i % 2, "watcher": ender == "end-all-transmissions", "flavour": i % len(FLAVOURS),
+                     "counts": [f"class:open:{shape}", f"class:open-ended-by:{ender}", f"class:open-blocks:{n}"], "sample": n == 257})
     # ---- many notifications per observer; transmissions of about a hundred blocks
     for k, raises in enumerate(configs[:3]):
         jobs.append({"kind": "many", "desc": "many short transmissions", "raises": raises, "seed": rng.getrandbits(64), "n": ctx.budget(160, 3000),
@@ -1669,6 +1837,8 @@ def run(ctx):
         ctx.count(f"observer-exceptions:family{job.get('flavour', 0) % len(FLAVOURS)}")
         if job.get("count"):
             ctx.count(job["count"])
+        for key in job.get("counts", ()):
+            ctx.count(key)
         if amb:
             ctx.count("ambient:" + amb)
             if amb.startswith(("stdout:", "both:", "log:root-debug-stdout")) and info.get("write_attempts"):
